@@ -107,7 +107,17 @@ def induction(c):
     c.canary("canary_no_shift", z3.Implies(hyp, H(t.z + 1, k.z) == spec(t.z, k.z)))
 
 
+# link (3) of the chain: the synapse step / clear contracts proved for C04 are obligations of this property too
+from pyvc.harness import REGISTRY as _REG  # noqa: E402
+from . import c04_synapses as _c04  # noqa: E402,F401
+
+for _cd in list(_REG.get("C04", [])):
+    if _cd.name.endswith(".forward") and not any(x.name == _cd.name for x in _REG.get(P, [])):
+        contract(P, _cd.name, list(_cd.targets), min_obligations=_cd.min_obligations)(_cd.fn)
+
+
 MUTANTS = [
+    dict(file=INF, func="RecordTensor.reset", old="        if fill is not None:", new="        if fill:", contracts=["DeltaCurrent.forward", "SingleExponentialCurrent.forward"], name="seed C06b: clearing with fill 0 leaves the delay history in place"),
     dict(file=SM, func="_synparam_at", old="                tolerance=tolerance,\n", new="", contracts=["_synparam_at[select by contract]"], name="seed C04b: tolerance keyword dropped (select falls back to its own default)"),
     dict(file=SM, func="_synparam_at", old="bounded_selector = selector.clamp(min=0, max=value.duration)", new="bounded_selector = selector.clamp(min=0)", contracts=["_synparam_at[select by contract]"], name="delay not clamped to the supported maximum (select precondition breaks)"),
     dict(file=SM, func="_synparam_at", old="                tolerance=tolerance,\n", new="                tolerance=0.0,\n", contracts=["_synparam_at[select by contract]"], name="tolerance not forwarded to select"),
